@@ -217,6 +217,10 @@ Definition p_body {A} (f : A -> list wop) (l : list A) : list wop :=
 Definition p_members (l : list ident) : list wop :=
   W (s " =") :: flat_map (fun i => W (s " | ") :: p_ident i) l.
 
+(** a union type *definition* without members has no equals sign (since /repo cb17160); the
+    extension printer still writes it *)
+Definition p_members_def (l : list ident) : list wop := match l with [] => [] | _ => p_members l end.
+
 Definition p_rootops (l : list (optype * ident)) : list wop :=
   W (s "{" ++ [LF]) :: Indent ::
   flat_map (fun kv => W (optype_str (fst kv)) :: W (s ": ") :: p_ident (snd kv) ++ [W [LF]]) l
@@ -234,7 +238,7 @@ Definition p_typedef (t : typedef) : list wop :=
   | TDInterface d _ n im ds fs _ =>
       p_desc d ++ W (s "interface ") :: p_ident n ++ p_implements im ++ sp_dirs ds
       ++ p_body p_fielddef fs ++ [W [LF]]
-  | TDUnion d _ n ds ms _ => p_desc d ++ W (s "union ") :: p_ident n ++ sp_dirs ds ++ p_members ms ++ [W [LF]]
+  | TDUnion d _ n ds ms _ => p_desc d ++ W (s "union ") :: p_ident n ++ sp_dirs ds ++ p_members_def ms ++ [W [LF]]
   | TDEnum d _ n ds vs _ => p_desc d ++ W (s "enum ") :: p_ident n ++ sp_dirs ds ++ p_body p_enumval vs ++ [W [LF]]
   | TDInput d _ n ds fs _ => p_desc d ++ W (s "input ") :: p_ident n ++ sp_dirs ds ++ p_body p_inputval fs ++ [W [LF]]
   end.
